@@ -499,8 +499,8 @@ def f_stringRepeat(args):
 
 def f_stringReplace(args):
     s, t, u = check(args, [(S, 'req'), (S, 'req'), (S, 'req')])
-    if t == '':
-        raise Unspecified('empty search string')
+    # (an empty search string: the str model — Python's replace and JavaScript's replaceAll alike — inserts the
+    # replacement before every code point and at the end: 'ab' -> 'xaxbx', '' -> 'x')
     return s.replace(t, u)
 
 
